@@ -72,7 +72,9 @@ def gen_case(prng: Prng, tier: str, i: int) -> dict:
         n_old=prng.randint(10, 30),
         k=prng.randint(2, 3) if tier == "quick" else prng.randint(2, 4),
         chunksize=prng.choice([None, 7, 16]),
-        variant=prng.choice(REBUILD_VARIANTS) if workload == "rebuild" else None,
+        variant=prng.choice(REBUILD_VARIANTS) if workload == "rebuild" else (
+            prng.choice(["apply", "apply", "divide", "random"]) if workload in ("create", "overwrite") else (
+                prng.choice(["corrdata", "histdata"]) if workload == "corrdata_files" else None)),
         prior=prng.choice(["plain", "with_trees", "with_trees"]) if workload == "overwrite" else (
             prng.choice(["none", "older"]) if workload in ("corrfunc_file", "corrdata_files") else None),
         scandir_seed=prng.below(1 << 20),
@@ -80,7 +82,7 @@ def gen_case(prng: Prng, tier: str, i: int) -> dict:
 
 
 def gen_cases(tier: str, verif_seed: int, runs: int | None = None) -> list[dict]:
-    n = runs if runs is not None else (21 if tier == "quick" else 420)
+    n = runs if runs is not None else (42 if tier == "quick" else 840)
     return [gen_case(Prng(mix(verif_seed, PROP, i)), tier, i) for i in range(n)]
 
 
@@ -137,9 +139,40 @@ def _centers(case: dict, *recs) -> np.ndarray:
     return c
 
 
-def _make_catalog(path: str, rec: dict, centers: np.ndarray, chunksize=None, overwrite=False):
+def _random_generator(case: dict):
     import yaw
 
+    attr = wl.gen_records(case["data_seed"] + 3, 19, has_w=True, has_z=True, zedges=EDGES_A, zpad=-0.005, edge_frac=0.0)
+    return yaw.randoms.BoxRandoms(10.0, 30.0, -10.0, 10.0, weights=attr["w"], redshifts=attr["z"], seed=case["data_seed"] % 99991)
+
+
+def _random_records(case: dict, n: int, chunksize) -> dict:
+    gen = _random_generator(case)
+    gen.reseed()
+    cs = chunksize or 16_777_216
+    chunks, left = [], n
+    while left > 0:
+        chunks.append(gen(min(cs, left)))
+        left -= min(cs, left)
+    data = np.concatenate(chunks)
+    return dict(ra=np.rad2deg(data["ra"]), dec=np.rad2deg(data["dec"]), w=data["weights"], z=data["redshifts"], _rad=data)
+
+
+def _make_catalog(path: str, rec: dict, centers: np.ndarray, chunksize=None, overwrite=False, variant="apply", case=None):
+    import yaw
+
+    if variant == "divide":
+        radec = np.deg2rad(np.column_stack([rec["ra"], rec["dec"]]))
+        ids, _ = wl.nearest_center(radec, centers)
+        return yaw.Catalog.from_dataframe(
+            path, wl.make_dataframe(rec, ids.astype("i8")), chunksize=chunksize, overwrite=overwrite, max_workers=1,
+            **wl.column_kwargs(rec, patch_name=True),
+        )
+    if variant == "random":
+        return yaw.Catalog.from_random(
+            path, _random_generator(case), len(rec["ra"]), patch_centers=yaw.AngularCoordinates(centers),
+            chunksize=chunksize, overwrite=overwrite, max_workers=1,
+        )
     return yaw.Catalog.from_dataframe(
         path, wl.make_dataframe(rec), patch_centers=yaw.AngularCoordinates(centers),
         chunksize=chunksize, overwrite=overwrite, max_workers=1, **wl.column_kwargs(rec),
@@ -184,7 +217,10 @@ class Scenario:
         seed = case["data_seed"]
         self.new = _records(seed, case["n_new"], EDGES_A)
         self.old = _records(seed + 1, case["n_old"], EDGES_A)
-        self.centers = _centers(case, self.new, self.old)
+        self.cvariant = case.get("variant") if w in ("create", "overwrite") else "apply"
+        if self.cvariant == "random":
+            self.new = _random_records(case, case["n_new"], case["chunksize"])
+        self.centers = _centers(case, {k_: v for k_, v in self.new.items() if k_ != "_rad"}, self.old)
         self.target = "cat"  # relative to the work directory
         self.expect: dict[str, dict] = {}
         self.fresh_trees: dict[str, dict] = {}
@@ -219,24 +255,30 @@ class Scenario:
                 cfg = wl.make_config(dict(rmin=0.5, rmax=5.0, unit="deg", edges=EDGES_A))
                 self.cf_new = yaw.autocorrelate(cfg, ca, ca, max_workers=1)[0]
                 self.cf_old = yaw.autocorrelate(cfg, cb, cb, max_workers=1)[0]
+                if case.get("variant") == "histdata":
+                    self.sd_new = yaw.HistData.from_catalog(ca, cfg, max_workers=1)
+                    self.sd_old = yaw.HistData.from_catalog(cb, cfg, max_workers=1)
+                    self.sd_cls = yaw.HistData
+                else:
+                    self.sd_new, self.sd_old, self.sd_cls = self.cf_new.sample(), self.cf_old.sample(), yaw.CorrData
                 os.makedirs(os.path.join(self.tpl, "out"))
                 if case["prior"] == "older":
                     if w == "corrfunc_file":
                         self.cf_old.to_file(os.path.join(self.tpl, "out", "cf.hdf"))
                     else:
-                        self.cf_old.sample().to_files(os.path.join(self.tpl, "out", "cd"))
+                        self.sd_old.to_files(os.path.join(self.tpl, "out", "cd"))
                 # what a completed write reads back as (text files round)
                 done = os.path.join(root, "done_io")
                 os.makedirs(done)
                 self.cf_new.to_file(os.path.join(done, "cf.hdf"))
                 self.cf_old.to_file(os.path.join(done, "cf_old.hdf"))
-                self.cf_new.sample().to_files(os.path.join(done, "cd"))
-                self.cf_old.sample().to_files(os.path.join(done, "cd_old"))
+                self.sd_new.to_files(os.path.join(done, "cd"))
+                self.sd_old.to_files(os.path.join(done, "cd_old"))
                 self.io_expect = dict(
                     cf_new=orc.corrfunc_state(yaw.CorrFunc.from_file(os.path.join(done, "cf.hdf"))),
                     cf_old=orc.corrfunc_state(yaw.CorrFunc.from_file(os.path.join(done, "cf_old.hdf"))),
-                    cd_new=orc.sampled_state(yaw.CorrData.from_files(os.path.join(done, "cd"))),
-                    cd_old=orc.sampled_state(yaw.CorrData.from_files(os.path.join(done, "cd_old"))),
+                    cd_new=orc.sampled_state(self.sd_cls.from_files(os.path.join(done, "cd"))),
+                    cd_old=orc.sampled_state(self.sd_cls.from_files(os.path.join(done, "cd_old"))),
                 )
             else:
                 raise ValueError(w)
@@ -244,7 +286,12 @@ class Scenario:
 
     # ---- helpers
     def _reference_partition(self, rec: dict) -> dict:
-        cols, parts, amb = orc.expected_partition(rec, centers_rad=self.centers)
+        if "_rad" in rec:
+            d = rec["_rad"]
+            rec = dict(ra=d["ra"], dec=d["dec"], w=d["weights"], z=d["redshifts"])
+            cols, parts, amb = orc.expected_partition(rec, degrees=False, centers_rad=self.centers)
+        else:
+            cols, parts, amb = orc.expected_partition(rec, centers_rad=self.centers)
         if len(amb):
             raise RuntimeError("ambiguous nearest centre in a crashfs scenario")
         return parts
@@ -297,9 +344,9 @@ class Scenario:
         target = os.path.join(workdir, "cat")
         with _seq():
             if w == "create":
-                _make_catalog(target, self.new, self.centers, chunksize=case["chunksize"])
+                _make_catalog(target, self.new, self.centers, chunksize=case["chunksize"], variant=self.cvariant, case=case)
             elif w == "overwrite":
-                _make_catalog(target, self.new, self.centers, chunksize=case["chunksize"], overwrite=True)
+                _make_catalog(target, self.new, self.centers, chunksize=case["chunksize"], overwrite=True, variant=self.cvariant, case=case)
             elif w == "first_open":
                 yaw.Catalog(target, max_workers=1)
             elif w in ("build_trees", "rebuild"):
@@ -308,7 +355,7 @@ class Scenario:
             elif w == "corrfunc_file":
                 self.cf_new.to_file(os.path.join(workdir, "out", "cf.hdf"))
             elif w == "corrdata_files":
-                self.cf_new.sample().to_files(os.path.join(workdir, "out", "cd"))
+                self.sd_new.to_files(os.path.join(workdir, "out", "cd"))
 
     # ---- next use (runs in a fresh recovery child, shim disarmed)
     def next_use(self, workdir: str, which: str = "new") -> dict:
@@ -322,7 +369,7 @@ class Scenario:
                         got = orc.corrfunc_state(yaw.CorrFunc.from_file(os.path.join(workdir, "out", "cf.hdf")))
                         new, old = self.io_expect["cf_new"], self.io_expect["cf_old"]
                     else:
-                        got = orc.sampled_state(yaw.CorrData.from_files(os.path.join(workdir, "out", "cd")))
+                        got = orc.sampled_state(self.sd_cls.from_files(os.path.join(workdir, "out", "cd")))
                         new, old = self.io_expect["cd_new"], self.io_expect["cd_old"]
                 except Exception as err:  # noqa: BLE001
                     return dict(cls="ERROR", detail=type(err).__name__)
